@@ -20,7 +20,7 @@ if [ -f "$DEMO" ]; then ANYTREE_ROOT=$WT PYTHONDONTWRITEBYTECODE=1 /venv/bin/pyt
 rm -rf tests/dotexport 2>/dev/null
 for id in "$@"; do
   for seed in ${SEEDS:-0}; do
-    VERIF_SEED=$seed VERIF_REPO=$WT VERIF_EVIDENCE_DIR=$OUT/ev VERIF_OUT=$OUT /verif/check "$id" --tier "${TIER:-quick}" > "$OUT/$id.log" 2>&1
+    VERIF_SEED=$seed VERIF_REPO=$WT VERIF_EVIDENCE_DIR=$OUT/ev VERIF_OUT=$OUT ${VERIF_CHECK:-/verif/check} "$id" --tier "${TIER:-quick}" > "$OUT/$id.log" 2>&1
     rc=$?
     echo "check $id seed=$seed: exit=$rc  $(grep -c '^VIOLATION' "$OUT/$id.log") VIOLATION lines; $(grep -m1 '^   ' "$OUT/$id.log")"
     [ $rc -eq 2 ] && grep -m3 HARNESS "$OUT/$id.log"
